@@ -2,8 +2,10 @@ package main
 
 import (
 	"fmt"
+	"os"
 	"sort"
 	"strings"
+	"time"
 
 	"github.com/teivah/majorana/proc/mvp1"
 	"github.com/teivah/majorana/proc/mvp2"
@@ -138,5 +140,98 @@ func runCase(n int, f []string) {
 		emit("parse-error %v", err)
 		return
 	}
-	emit("%s", runOnce(f[0], atoi(f[1]), int64(atoi(f[2])), atoi(f[3]), parsePairs(f[4]), parsePairs(f[5]), app))
+	emit("%s", withWatchdog(func() string {
+		return runOnce(f[0], atoi(f[1]), int64(atoi(f[2])), atoi(f[3]), parsePairs(f[4]), parsePairs(f[5]), app)
+	}))
+}
+
+// withWatchdog runs one case; a case that neither returns nor exhausts its tick budget within the
+// wall-clock limit (a loop that does not tick, a Go-level wait) is reported as "hang" and the
+// process exits with status 3: the driver restarts the harness at the next case.
+func withWatchdog(f func() string) string {
+	ch := make(chan string, 1)
+	go func() { ch <- f() }()
+	limit := 8 * time.Second
+	if v := os.Getenv("VERIF_CASE_TIMEOUT"); v != "" {
+		limit = time.Duration(atoi(v)) * time.Second
+	}
+	select {
+	case r := <-ch:
+		return r
+	case <-time.After(limit):
+		emit("hang")
+		out.Flush()
+		os.Exit(3)
+	}
+	return ""
+}
+
+func init() {
+	commands["repeat"] = repeatCase
+	commandsFlushEach["repeat"] = true
+	commands["reuse"] = reuseCase
+	commandsFlushEach["reuse"] = true
+}
+
+func stripTicks(s string) string {
+	var out []string
+	for _, t := range strings.Split(s, " ") {
+		if !strings.HasPrefix(t, "t=") {
+			out = append(out, t)
+		}
+	}
+	return strings.Join(out, " ")
+}
+
+// repeat case: count \t concurrent(0/1) \t variant \t par \t budget \t memsize \t regs \t meminit \t asm
+// runs the same input count times in this process (fresh parse and fresh machine each time; with
+// concurrent=1 another machine runs a different program in a goroutine meanwhile) and reports
+// whether all (cycles, registers, memory) results are identical.
+func repeatCase(n int, f []string) {
+	count := atoi(f[0])
+	concurrent := atoi(f[1]) == 1
+	asm := strings.ReplaceAll(f[8], "|", "\n")
+	var first string
+	for i := 0; i < count; i++ {
+		app, err := risc.Parse(asm)
+		if err != nil {
+			emit("parse-error")
+			return
+		}
+		done := make(chan struct{})
+		if concurrent {
+			go func() {
+				defer close(done)
+				defer func() { _ = recover() }()
+				other, err := risc.Parse("li t0, 7\nli t1, 9\nadd t2, t0, t1\nsw t2, 0(zero)\nlw t3, 0(zero)\nret")
+				if err == nil {
+					_ = runOnce(f[2], atoi(f[3]), 100000, 64, nil, nil, other)
+				}
+			}()
+		} else {
+			close(done)
+		}
+		r := stripTicks(runOnce(f[2], atoi(f[3]), int64(atoi(f[4])), atoi(f[5]), parsePairs(f[6]), parsePairs(f[7]), app))
+		<-done
+		if i == 0 {
+			first = r
+		} else if r != first {
+			emit("DIFF run0: %s || run%d: %s", first, i, r)
+			return
+		}
+	}
+	emit("same %s", first)
+}
+
+// reuse case: variantA \t parA \t variantB \t parB \t budget \t memsize \t regs \t meminit \t asm
+// parses once, runs the Application on machine A, then on a fresh machine B; prints B's result.
+func reuseCase(n int, f []string) {
+	asm := strings.ReplaceAll(f[8], "|", "\n")
+	app, err := risc.Parse(asm)
+	if err != nil {
+		emit("parse-error")
+		return
+	}
+	_ = runOnce(f[0], atoi(f[1]), int64(atoi(f[4])), atoi(f[5]), parsePairs(f[6]), parsePairs(f[7]), app)
+	emit("%s", stripTicks(runOnce(f[2], atoi(f[3]), int64(atoi(f[4])), atoi(f[5]), parsePairs(f[6]), parsePairs(f[7]), app)))
 }
